@@ -2,6 +2,7 @@
 mod battery;
 mod c03;
 mod c04;
+mod c07;
 mod c08;
 mod c09;
 mod c10;
@@ -68,6 +69,7 @@ fn main() {
     let report = match argv[1].as_str() {
         "c03" => c03::run(&a),
         "c04" => c04::run(&a),
+        "c07" => c07::run(&a),
         "c08" => c08::run(&a),
         "c09" => c09::run(&a),
         "c10" => c10::run(&a),
